@@ -4,17 +4,49 @@ from tools.unitapi import Unit, Rewrite
 L = 'crates/codegen/src/layout.rs'
 T = 'crates/hir/src/common/ty.rs'
 
+def prelude(u):
+    """shims + the extracted datatypes + the layout tables and the C17 specification; shared
+    by every unit that relies on the layout contracts"""
+    u.shim('intern.rs')
+    u.shim('ty_deps.rs')
+    u.shim('std_extra.rs')
+    u.extract(T, 'struct MemberTy', keep_derives={'Clone', 'Copy'})
+    u.extract(T, 'struct ParamTy', keep_derives={'Clone', 'Copy'})
+    u.extract(T, 'enum Ty', keep_derives=set())
+    u.extract(L, 'struct EnumLayout', keep_derives={'Clone', 'Copy'}, pub_fields=True)
+    u.extract(L, 'struct StructLayout', keep_derives=set(), pub_fields=True)
+    u.shim('layout_tables.rs')
+    u.parts.append(('spec', __file__.replace('unit.py', 'spec.rs')))
+
+
+# contracts proved here and relied upon (as stubs) by other units
+C_ABSOLUTE_TY = '''
+    ensures *res == spec_abs(*self)
+'''
+C_IS_POINTER = '    ensures res == is_ptr(*self)'
+C_STRIDE = '''
+    ensures res as nat == stride_of(*self.0), entry_ok(*self.0)
+'''
+C_ALIGN_SHIFT = '''
+    ensures res <= 3, (1u32 << res) as nat == talign(*self.0), entry_ok(*self.0)
+'''
+C_DISCR_OFF = '    ensures res == self.discriminant_offset'
+C_OFFSETS = '    ensures res@ == self.offsets@'
+
+
+def api_stubs(u):
+    """the layout API as contracts only (bodies are proved in unit `layout`)"""
+    u.extract(T, 'impl Ty::fn absolute_ty', wrap=('impl Ty {', '}'), contract=C_ABSOLUTE_TY, stub='layout')
+    u.extract(T, 'impl Ty::fn is_pointer', wrap=('impl Ty {', '}'), contract=C_IS_POINTER, stub='layout')
+    u.extract(T, 'impl Ty::fn is_non_zero', wrap=('impl Ty {', '}'), contract=C_IS_POINTER, stub='layout')
+    u.extract(L, 'impl GetLayoutInfo for Intern<Ty>::fn stride', wrap=('impl Intern<Ty> {', '}'), contract=C_STRIDE, stub='layout')
+    u.extract(L, 'impl GetLayoutInfo for Intern<Ty>::fn align_shift', wrap=('impl Intern<Ty> {', '}'), contract=C_ALIGN_SHIFT, stub='layout')
+    u.extract(L, 'impl EnumLayout::fn discriminant_offset', wrap=('impl EnumLayout {', '}'), contract=C_DISCR_OFF, stub='layout')
+    u.extract(L, 'impl StructLayout::fn offsets', wrap=('impl StructLayout {', '}'), contract=C_OFFSETS, stub='layout')
+
+
 UNIT = u = Unit('layout', ['C17'], 'type layout tables: calc_single, StructLayout::new, padding_needed_for, stride, align_shift')
-u.shim('intern.rs')
-u.shim('ty_deps.rs')
-u.shim('std_extra.rs')
-u.extract(T, 'struct MemberTy', keep_derives={'Clone', 'Copy'})
-u.extract(T, 'struct ParamTy', keep_derives={'Clone', 'Copy'})
-u.extract(T, 'enum Ty', keep_derives=set())
-u.extract(L, 'struct EnumLayout', keep_derives={'Clone', 'Copy'}, pub_fields=True)
-u.extract(L, 'struct StructLayout', keep_derives=set(), pub_fields=True)
-u.shim('layout_tables.rs')
-u.spec('spec.rs')
+prelude(u)
 u.trusted += [
     'LAYOUTS table modelled rely/guarantee: reads return the table content (T1), entries are written once by calc_single under the proved write preconditions (T2), an insert defines the content (T3) -- shims/verus/layout_tables.rs',
     'GetLayoutInfo::{size, align, struct_layout, enum_layout} are table reads and are trusted, not extracted',
@@ -38,17 +70,15 @@ INDEX = Rewrite('R4', r'layouts\.(sizes|alignments)\[self\]', r'layouts.\1.at(se
 
 u.extract(T, 'impl Ty::fn absolute_ty',
           wrap=('impl Ty {', '}'),
-          contract='''
-    ensures *res == spec_abs(*self)
-''',
+          contract=C_ABSOLUTE_TY,
           loops={0: '''
     invariant spec_abs(*curr_ty) == spec_abs(*self)
     decreases *curr_ty
 '''})
-u.extract(T, 'impl Ty::fn is_pointer', wrap=('impl Ty {', '}'),
-          contract='    ensures res == is_ptr(*self)')
-u.extract(T, 'impl Ty::fn is_non_zero', wrap=('impl Ty {', '}'),
-          contract='    ensures res == is_ptr(*self)')
+u.extract(T, 'impl Ty::fn is_pointer', wrap=('impl Ty {', '}'), contract=C_IS_POINTER)
+u.extract(T, 'impl Ty::fn is_non_zero', wrap=('impl Ty {', '}'), contract=C_IS_POINTER)
+u.extract(L, 'impl EnumLayout::fn discriminant_offset', wrap=('impl EnumLayout {', '}'), contract=C_DISCR_OFF)
+u.extract(L, 'impl StructLayout::fn offsets', wrap=('impl StructLayout {', '}'), contract=C_OFFSETS)
 
 u.extract(L, 'fn padding_needed_for', contract='''
     requires align > 0
@@ -100,18 +130,14 @@ u.extract(L, 'impl StructLayout::fn new', wrap=('impl StructLayout {', '}'),
 
 u.extract(L, 'impl GetLayoutInfo for Intern<Ty>::fn stride', wrap=('impl Intern<Ty> {', '}'),
           rewrites=[LOCK_REF, INDEX],
-          contract='''
-    ensures res as nat == stride_of(*self.0)
-''',
+          contract=C_STRIDE,
           inserts=[('@body_start', 'after', '''
         proof { if entry_ok(*self.0) { lemma_stride_bits(tsize(*self.0) as u32, talign(*self.0) as u32); } }
 ''')])
 u.extract(L, 'impl GetLayoutInfo for Intern<Ty>::fn align_shift', wrap=('impl Intern<Ty> {', '}'),
           rewrites=[Rewrite('R4', r'LAYOUTS\.lock\(\)\.unwrap\(\)\.get\(\)\.unwrap\(\)\.alignments\[self\]', 'layouts_ref().alignments.at(self)', count=1,
                             why='global table access idiom -> shim accessor')],
-          contract='''
-    ensures res <= 3, (1u32 << res) as nat == talign(*self.0)
-''',
+          contract=C_ALIGN_SHIFT,
           inserts=[('assert!(align.is_power_of_two());', 'after', '''
         proof { lemma_tz(align); }
 ''')])
